@@ -53,6 +53,11 @@ func sourceSeeds(fi *FuncInfo) []*types.Var {
 	if nType >= 2 {
 		return ids
 	}
+	// a private helper that is handed a source expression together with one type
+	// (the statement constructors split off from Assign/Build functions)
+	if nType >= 1 && !fi.Obj.Exported() && fi.Obj.Type().(*types.Signature).Recv() == nil {
+		return ids
+	}
 	return nil
 }
 
